@@ -210,11 +210,22 @@ func init() {
 	}
 }
 
+// scenarioLogger alternates between a logger that is off and one at trace level writing to nowhere: what gldap
+// does must not depend on whether anybody listens to its log.
+var scenarioCount int64
+
+func scenarioLogger() hclog.Logger {
+	if atomic.AddInt64(&scenarioCount, 1)%2 == 0 {
+		return hclog.New(&hclog.LoggerOptions{Level: hclog.Trace, Output: io.Discard})
+	}
+	return hclog.NewNullLogger()
+}
+
 // startServer starts a real gldap.Server with the tracer installed. opts are server options.
 func startServer(mux *gldap.Mux, tlsc *tls.Config, onClose func(int), extra ...gldap.Option) (*SUT, error) {
 	s := &SUT{tr: NewTracer(), runErr: make(chan error, 1), onClose: onClose}
 	curTracer.Store(s.tr)
-	opts := []gldap.Option{gldap.WithLogger(hclog.NewNullLogger()), gldap.WithOnClose(func(id int) {
+	opts := []gldap.Option{gldap.WithLogger(scenarioLogger()), gldap.WithOnClose(func(id int) {
 		v, _ := s.closed.LoadOrStore(id, new(int32))
 		atomic.AddInt32(v.(*int32), 1)
 		if s.onClose != nil {
